@@ -34,8 +34,17 @@ func cmdFidelity(args []string) error {
 	}
 	var out []bad
 	n, spelled := 0, 0
+	// every string, and for strings with class symbols also the other members of the classes
+	var all []string
 	for _, ss := range strs {
-		s := string(bytesOf(ss))
+		all = append(all, string(bytesOf(ss)))
+		if hasClassSym(ss) {
+			for _, alt := range symAlt {
+				all = append(all, string(bytesAlt(ss, alt)))
+			}
+		}
+	}
+	for _, s := range all {
 		n++
 		for _, st := range []string{"dq", "raw", "bare", "ident"} {
 			q, err := expr.Quote(s, st)
